@@ -467,7 +467,7 @@ func TestRaceReadersOnMissingNodes(t *testing.T) {
 // in the background on the collector's clone). Every snapshot must be one the sequential run of the same sequence
 // has seen: (root -> number of changes, number of deletes) from a reference run.
 func TestRaceChangeSetSnapshots(t *testing.T) {
-	ev.Rapid(t, 12, 200)
+	ev.Rapid(t, 12, 60)
 	rapid.Check(t, func(rt *rapid.T) {
 		nkeys := gen.Uniform(rt, 60, 400, "nkeys")
 		nreaders := gen.Uniform(rt, 2, 6, "nreaders")
